@@ -1,46 +1,98 @@
 import BctVerif.Lemmas.Cluster
 /-!
-# The model's routines as `Finset` sums (pure unfolding, no hypotheses)
+# The routines as `Finset` sums
+
+* generic (`K` any linearly ordered field): the triangle sums and pair counts, the two division devices, and the
+  *specification form* of each routine (`ccFagK`, `ccWuK`, `zhangK`, `costK`, `transFagK`, `transWuK`);
+* `ℚ`: each routine of the executable model equals its specification form (pure unfolding, no hypotheses).
 -/
 namespace Bct.Cluster
 open Finset Bct
 
 variable {n : ℕ}
 
+section Generic
+variable {K : Type} [Field K] [LinearOrder K] [IsStrictOrderedRing K]
+
 /-- `Σ_{j,k} (r+rᵀ)_ij (r+rᵀ)_jk (r+rᵀ)_ki` -/
-def triS (R : AMat ℚ n) (i : Fin n) : ℚ :=
+def triS (R : AMat K n) (i : Fin n) : K :=
   ∑ j, ∑ k, (R.get i j + R.get j i) * (R.get j k + R.get k j) * (R.get k i + R.get i k)
 /-- total degree `Σ_j (a_ij + a_ji)` -/
-def degS (A : AMat ℚ n) (i : Fin n) : ℚ := ∑ j, (A.get i j + A.get j i)
+def degS (A : AMat K n) (i : Fin n) : K := ∑ j, (A.get i j + A.get j i)
 /-- Fagiolo's denominator `K(K-1) - 2 Σ_j a_ij a_ji` -/
-def pairsS (A : AMat ℚ n) (i : Fin n) : ℚ := degS A i * (degS A i - 1) - 2 * ∑ j, A.get i j * A.get j i
+def pairsS (A : AMat K n) (i : Fin n) : K := degS A i * (degS A i - 1) - 2 * ∑ j, A.get i j * A.get j i
 /-- `Σ_{j,k} r_ij r_jk r_ki` -/
-def tri (R : AMat ℚ n) (i : Fin n) : ℚ := ∑ j, ∑ k, R.get i j * R.get j k * R.get k i
+def tri (R : AMat K n) (i : Fin n) : K := ∑ j, ∑ k, R.get i j * R.get j k * R.get k i
 /-- number of neighbours `Σ_j [w_ij ≠ 0]` -/
-def deg (W : AMat ℚ n) (i : Fin n) : ℚ := ∑ j, ind (W.get i j)
+def deg (W : AMat K n) (i : Fin n) : K := ∑ j, indK (W.get i j)
 
-theorem ccFagiolo_get (A R : AMat ℚ n) (i : Fin n) :
-    (ccFagiolo A R)[i] = perNode (triS R i / 2) (pairsS A i) := by
+/-- per-node ratio after `K[np.where(cyc3 == 0)] = np.inf` (`none` = non-finite float) -/
+def perNodeK (cyc3 CYC3 : K) : Option K :=
+  if cyc3 = 0 then some 0 else if CYC3 = 0 then none else some (cyc3 / CYC3)
+/-- unmasked network-level ratio -/
+def gdivK (a b : K) : Option K := if b = 0 then none else some (a / b)
+
+/-- `clustering_coef_bd` (`R = A`) / `clustering_coef_wd` (`A = adjK W`, `R = cuberoot W`) at node `i` -/
+def ccFagK (A R : AMat K n) (i : Fin n) : Option K := perNodeK (triS R i / 2) (pairsS A i)
+/-- `clustering_coef_wu` at node `i`, `R = cuberoot W` -/
+def ccWuK (W R : AMat K n) (i : Fin n) : Option K := perNodeK (tri R i) (deg W i * (deg W i - 1))
+/-- Zhang–Horvath triple loop on one sign part -/
+def zhangK (P : AMat K n) (i : Fin n) : Option K :=
+  perNodeK (∑ j, ∑ q, P.get j i * P.get i q * P.get j q) (∑ j, ∑ q, if j = q then 0 else P.get j i * P.get i q)
+/-- Costantini–Perugini triple loop (on the matrix with zeroed diagonal) -/
+def costK (Z : AMat K n) (i : Fin n) : Option K :=
+  perNodeK (∑ j, ∑ q, Z.get j i * Z.get i q * Z.get j q) (∑ j, ∑ q, if j = q then 0 else |Z.get j i * Z.get i q|)
+/-- `transitivity_bd` / `transitivity_wd` -/
+def transFagK (A R : AMat K n) : Option K := gdivK (∑ i, triS R i / 2) (∑ i, pairsS A i)
+/-- `transitivity_wu` -/
+def transWuK (W R : AMat K n) : Option K := gdivK (∑ i, tri R i) (∑ i, deg W i * (deg W i - 1))
+
+end Generic
+
+/-! ### the `ℚ` model -/
+
+theorem perNode_eq (c d : ℚ) : perNode c d = perNodeK c d := by
+  unfold perNode perNodeK; split_ifs <;> rfl
+theorem gdiv_eq (a b : ℚ) : gdiv a b = gdivK a b := by
+  unfold gdiv gdivK; split_ifs <;> rfl
+
+theorem ccFagiolo_get (A R : AMat ℚ n) (i : Fin n) : (ccFagiolo A R)[i] = ccFagK A R i := by
   simp only [ccFagiolo, get_ofFn_vec, Finset.mul_sum, mul_assoc, madd_get, transpose_get, rowSum_eq, mmul_get,
-    triS, pairsS, degS]
+    triS, pairsS, degS, ccFagK, perNode_eq]
 
-theorem ccWu_get (W R : AMat ℚ n) (i : Fin n) :
-    (ccWu W R)[i] = perNode (tri R i) (deg W i * (deg W i - 1)) := by
-  simp only [ccWu, get_ofFn_vec, mmul_get, Finset.mul_sum, mul_assoc, rowSum_eq, adj_get, tri, deg]
+theorem ccWd_get (W R : AMat ℚ n) (i : Fin n) : (ccWd W R)[i] = ccFagK (adjK W) R i := by
+  rw [ccWd, ccFagiolo_get, adj_eq]
 
-theorem transFagiolo_eq (A R : AMat ℚ n) :
-    transFagiolo A R = gdiv (∑ i, triS R i / 2) (∑ i, pairsS A i) := by
+theorem ccBd_get (A : AMat ℚ n) (i : Fin n) : (ccBd A)[i] = ccFagK A A i := ccFagiolo_get A A i
+
+theorem ccWu_get (W R : AMat ℚ n) (i : Fin n) : (ccWu W R)[i] = ccWuK W R i := by
+  simp only [ccWu, get_ofFn_vec, mmul_get, Finset.mul_sum, mul_assoc, rowSum_eq, adj_get, tri, deg, ccWuK, perNode_eq]
+
+theorem transFagiolo_eq (A R : AMat ℚ n) : transFagiolo A R = transFagK A R := by
   simp only [transFagiolo, vsum_eq, Finset.mul_sum, mul_assoc, madd_get, transpose_get, rowSum_eq, mmul_get,
-    triS, pairsS, degS]
+    triS, pairsS, degS, transFagK, gdiv_eq]
 
-theorem transWu_eq (W R : AMat ℚ n) :
-    transWu W R = gdiv (∑ i, tri R i) (∑ i, deg W i * (deg W i - 1)) := by
-  simp only [transWu, vsum_eq, mmul_get, Finset.mul_sum, mul_assoc, rowSum_eq, adj_get, tri, deg]
+theorem transWd_eq (W R : AMat ℚ n) : transWd W R = transFagK (adjK W) R := by
+  rw [transWd, transFagiolo_eq, adj_eq]
+
+theorem transWu_eq (W R : AMat ℚ n) : transWu W R = transWuK W R := by
+  simp only [transWu, vsum_eq, mmul_get, Finset.mul_sum, mul_assoc, rowSum_eq, adj_get, tri, deg, transWuK, gdiv_eq]
 
 theorem transBu_eq (A : AMat ℚ n) :
-    transBu A = gdiv (∑ i, tri A i)
+    transBu A = gdivK (∑ i, tri A i)
       ((∑ i, ∑ j, ∑ k, A.get i k * A.get k j) - ∑ i, ∑ k, A.get i k * A.get k i) := by
-  simp only [transBu, trace_eq, total_eq, Finset.mul_sum, mul_assoc, mmul_get, tri]
+  simp only [transBu, trace_eq, total_eq, Finset.mul_sum, mul_assoc, mmul_get, tri, gdiv_eq]
+
+theorem zhangCore_get (P : AMat ℚ n) (i : Fin n) : (zhangCore P)[i] = zhangK P i := by
+  simp only [zhangCore, get_ofFn_vec, vsum_eq, zhangK, perNode_eq]
+
+theorem qabs_eq (x : ℚ) : qabs x = |x| := by
+  unfold qabs; split_ifs with h
+  · exact (abs_of_nonneg h).symm
+  · exact (abs_of_neg (not_le.mp h)).symm
+
+theorem ccSignCost_get (W : AMat ℚ n) (i : Fin n) : (ccSignCost W)[i] = costK (zeroDiagK W) i := by
+  simp only [ccSignCost, get_ofFn_vec, vsum_eq, qabs_eq, costK, perNode_eq, zeroDiag_eq]
 
 /-! ### the list code of `clustering_coef_bu` -/
 
@@ -56,12 +108,12 @@ theorem length_filter_cast {α} (l : List α) (p : α → Bool) :
   | nil => simp
   | cons x xs ih => by_cases h : p x <;> simp [h, ih]; ring
 
-theorem ind_ite (x y : ℚ) : (if decide (x ≠ 0) = true then y else 0) = ind x * y := by
-  unfold ind; by_cases h : x = 0 <;> simp [h]
+theorem ind_ite (x y : ℚ) : (if decide (x ≠ 0) = true then y else 0) = indK x * y := by
+  unfold indK; by_cases h : x = 0 <;> simp [h]
 
 theorem ccBu_get (G : AMat ℚ n) (u : Fin n) :
     (ccBu G)[u] = some (if (2:ℚ) ≤ deg G u then
-        (∑ a, ∑ b, ind (G.get u a) * (ind (G.get u b) * G.get a b)) / (deg G u * deg G u - deg G u)
+        (∑ a, ∑ b, indK (G.get u a) * (indK (G.get u b) * G.get a b)) / (deg G u * deg G u - deg G u)
       else 0) := by
   simp only [ccBu, get_ofFn_vec]
   have hk : (((List.finRange n).filter fun j => decide (G.get u j ≠ 0)).length : ℚ) = deg G u := by
@@ -69,7 +121,7 @@ theorem ccBu_get (G : AMat ℚ n) (u : Fin n) :
     exact Finset.sum_congr rfl (fun j _ => by simpa using ind_ite (G.get u j) 1)
   have hs : ((((List.finRange n).filter fun j => decide (G.get u j ≠ 0)).map fun a =>
       ((((List.finRange n).filter fun j => decide (G.get u j ≠ 0)).map fun b => G.get a b).sum)).sum)
-      = ∑ a, ∑ b, ind (G.get u a) * (ind (G.get u b) * G.get a b) := by
+      = ∑ a, ∑ b, indK (G.get u a) * (indK (G.get u b) * G.get a b) := by
     rw [sum_map_filter, ← Fin.sum_univ_def]
     refine Finset.sum_congr rfl (fun a _ => ?_)
     rw [sum_map_filter, ← Fin.sum_univ_def, ind_ite, Finset.mul_sum]
